@@ -219,7 +219,7 @@ contract(V3 + ".authenticate",
          modifies=["self._local_key", "self._local_key_expiration", "self._packet_id", "self._queue"],
          post_let={"T": "events('tx')"},
          emits={"tx": "hs_request(old(self._packet_id), token)"},
-         raises={LAN + "AuthenticationError": {"emits": {"tx": "hs_request(old(self._packet_id), token if token is not None else bytes())"}, "post": {
+         raises={LAN + "AuthenticationError": {"emits": {"tx": "maybe(hs_request(old(self._packet_id), token)) if (token is not None and key is not None) else []"}, "post": {
                      "counter_in_range": "0 <= self._packet_id <= 0xFFF",
                      "session_stays_unauthenticated": "self._local_key == old(self._local_key) and same_object(self._local_key_expiration, old(self._local_key_expiration))",
                      "only_handshake_requests_sent": "len(events('tx')) <= 1 and implies(len(events('tx')) == 1, events('tx')[0] == hs_request(old(self._packet_id), token))"}},
@@ -240,7 +240,7 @@ contract(V3 + ".authenticate",
 
 
 # ---- C04: V3 stream reassembly ------------------------------------------------------------------------------------------
-from pyvc.dsl import byte_at, forall
+from pyvc.dsl import byte_at, forall, maybe
 
 
 def marker_at(s, j):
